@@ -118,12 +118,94 @@ SignOf(s, e) ==
 (* reflog: the journal and the view `goit reflog` prints (newest first) *)
 
 LogRec(from, to, kind, msg) == [ok |-> TRUE, raw |-> "", from |-> from, to |-> to, kind |-> kind, msg |-> msg]
+(* the journal of one branch (.goit/logs/refs/heads/<name>): begun by the command that creates the branch, extended by *)
+(* commit and reset on it, begun anew under the new name by a rename, removed with the branch.  No listed property *)
+(* speaks about these files; they are part of the model so that its agreement with the code covers them too        *)
+(* (model_conformance, information).                                                                              *)
+CreatedRec(id, fromBranch) == LogRec(Zero, id, "branch", "Created%20from%20" \o fromBranch)
+BAppend(bl, b, rec) == [x \in (DOMAIN bl) \cup {b} |-> IF x = b THEN (IF b \in DOMAIN bl THEN Append(bl[b], rec) ELSE <<rec>>) ELSE bl[x]]
 ModelView(s) ==
     [i \in 1..Len(s.hlog) |->
         LET r == s.hlog[Len(s.hlog) + 1 - i] IN
         [ok |-> TRUE, id7 |-> r.to, full |-> (IF r.to \in DOMAIN s.objs THEN r.to ELSE ""), n |-> i - 1, kind |-> r.kind, msg |-> r.msg]]
+----------------------------------------------------------------------------
+(* What the read-only commands print, transcribed from how the code computes it.  They are part of every model   *)
+(* state's observation bundle, so StepOK checks on every transition of every instance that these computations    *)
+(* satisfy the declarative report clauses (C06_ReadBack, C07_StagedReport, C10_List, C10_RevParse, C13_*, C14_Log),*)
+(* and the tours compare them with what the real commands printed (model_conformance).                            *)
+
+(* internal/store/ignore.go: every line of .goitignore becomes an UNANCHORED regular expression, QuoteMeta(line)   *)
+(* with each '*' read as ".*": a target matches iff the pieces of the line between its stars occur in the target   *)
+(* in that order.  The built-in pattern for the metadata directory is anchored at the start.                       *)
+STAR == 42
+RECURSIVE SplitStar(_, _, _)
+SplitStar(b, i, cur) ==
+    IF i > Len(b) THEN <<cur>>
+    ELSE IF b[i] = STAR THEN <<cur>> \o SplitStar(b, i + 1, <<>>)
+    ELSE SplitStar(b, i + 1, Append(cur, b[i]))
+OccursAt(tgt, piece, o) == o + Len(piece) <= Len(tgt) /\ \A i \in 1..Len(piece) : tgt[o + i] = piece[i]
+RECURSIVE PiecesIn(_, _, _)
+PiecesIn(tgt, pieces, from) ==
+    IF Len(pieces) = 0 THEN TRUE
+    ELSE LET pc == Head(pieces)
+             offs == {o \in from..(Len(tgt) - Len(pc)) : OccursAt(tgt, pc, o)}
+         IN  offs # {} /\ PiecesIn(tgt, Tail(pieces), (CHOOSE o \in offs : \A o2 \in offs : o <= o2) + Len(pc))
+LineMatches(ln, tgt) == PiecesIn(tgt, SplitStar(ln, 1, <<>>), 0)
+IsIncludedB(s, tgt) ==
+    \/ IsPrefixB(DotGoitB \o <<SLASH>>, tgt)
+    \/ s.ign.present /\ \E i \in 1..Len(s.ign.lines) : LineMatches(Bytes(s.ign.lines[i]), tgt)
+(* IsIncluded(path): a directory without a slash in its path is matched with a slash appended *)
+DirTarget(d) == IF \E i \in 1..Len(Bytes(d)) : Bytes(d)[i] = SLASH THEN Bytes(d) ELSE Bytes(d) \o <<SLASH>>
+(* internal/file GetFilePathsUnderDirectoryWithIgnore: a file is returned by the walk iff neither it nor one of the *)
+(* directories above it is included in the ignore list                                                            *)
+Walked(s, p) == ~IsIncludedB(s, Bytes(p)) /\ \A d \in ParentDirs(p) : ~IsIncludedB(s, DirTarget(d))
+
+(* cmd/status.go *)
+StatusImpl(s) ==
+    LET tracked == IdxPaths(s.idx)
+        walked == {p \in DOMAIN s.wt : Walked(s, p)}
+        differs(p) == Obj(s, IdxId(s.idx, p)).d # s.wt[p]
+        modified == {p \in walked \cap tracked : differs(p)}
+                      \cup {p \in (tracked \cap DOMAIN s.wt) \ walked : IsIncludedB(s, Bytes(p)) /\ differs(p)}
+        deleted == {p \in tracked : p \notin DOMAIN s.wt /\ p \notin DirsOfWt(s.wt)}
+        D == Diff(HeadSnap(s), IdxPairs(s.idx))
+    IN  [res |-> "ok",
+         staged |-> SetToSeq({[c |-> x[1], p |-> x[2]] : x \in D}),
+         unstaged |-> SetToSeq({[c |-> "modified", p |-> q] : q \in modified} \cup {[c |-> "deleted", p |-> q] : q \in deleted}),
+         untracked |-> SetToSeq(walked \ tracked)]
+
+(* cmd/log.go through LogImpl (defined below): the ids, each with the author and message of its commit *)
+RECURSIVE LogLoopM(_, _, _, _, _, _)
+LogLoopM(s, queue, visited, counter, maxCount, out) ==
+    IF Len(queue) = 0 \/ counter + 1 > maxCount THEN out
+    ELSE LET cur == Head(queue) IN
+         IF cur \in visited THEN LogLoopM(s, Tail(queue), visited, counter + 1, maxCount, out)
+         ELSE IF ~IsCommit(s, cur) THEN out
+         ELSE LogLoopM(s, Tail(queue) \o Obj(s, cur).parents, visited \cup {cur}, counter + 1, maxCount, Append(out, cur))
+LogObs(s, k) ==
+    IF ~HeadHasCommit(s) THEN [res |-> "refused", k |-> k, ents |-> <<>>]
+    ELSE LET ids == LogLoopM(s, <<HeadId(s)>>, {}, 0, IF k < 0 THEN 5 ELSE k, <<>>) IN
+         [res |-> "ok", k |-> k,
+          ents |-> [i \in 1..Len(ids) |->
+                      LET c == Obj(s, ids[i]) IN
+                      [id |-> ids[i], author |-> c.author.name \o "%20<" \o c.author.email \o ">", msg |-> c.msg,
+                       dok |-> TRUE, secs |-> c.author.secs, off |-> c.author.off]]]
+
+BranchListObs(s) ==
+    [res |-> "ok", names |-> SetToSortSeq(Branches(s), LAMBDA a, b : LtB(Bytes(a), Bytes(b))),
+     cur |-> IF HeadBranch(s) \in Branches(s) THEN <<HeadBranch(s)>> ELSE <<>>]
+RevParseObs(s) ==
+    [k \in {"HEAD"} \cup {"b:" \o b : b \in Branches(s)} |->
+        IF k = "HEAD" THEN (IF HeadHasCommit(s) THEN [res |-> "ok", out |-> HeadId(s)] ELSE [res |-> "refused", out |-> ""])
+        ELSE [res |-> "ok", out |-> s.refs[CHOOSE b \in Branches(s) : k = "b:" \o b]]]
+
 ObsOf(s) ==
-    [reflog |-> [res |-> (IF Len(s.hlog) > 0 THEN "ok" ELSE "refused"), ents |-> ModelView(s)]]
+    [reflog |-> [res |-> (IF Len(s.hlog) > 0 THEN "ok" ELSE "refused"), ents |-> ModelView(s)],
+     status |-> StatusImpl(s),
+     ls |-> [res |-> "ok", ents |-> s.idx.ents],
+     branches |-> BranchListObs(s),
+     revparse |-> RevParseObs(s),
+     log |-> [d |-> LogObs(s, -1), k0 |-> LogObs(s, 0), k1 |-> LogObs(s, 1), k2 |-> LogObs(s, 2)]]
 Line(s) == [st |-> s, obs |-> ObsOf(s)]
 
 ----------------------------------------------------------------------------
@@ -176,7 +258,8 @@ DoCommitT(s, e, n, bt) ==
     IN  IF ~IdentitySet(s) \/ D = {} THEN Refuse(s)
         ELSE R([s EXCEPT !.objs = Merge(Merge(s.objs, bt.objs), Put(<<>>, cid, co)),
                          !.refs = Put(s.refs, hb, cid),
-                         !.hlog = Append(s.hlog, LogRec(from, cid, "commit", Subject(e.msg)))], "ok")
+                         !.hlog = Append(s.hlog, LogRec(from, cid, "commit", Subject(e.msg))),
+                         !.blog = BAppend(s.blog, hb, LogRec(from, cid, "commit", Subject(e.msg)))], "ok")
 
 DoCommit(s, e, n) == DoCommitT(s, e, n, BuildTree(IdxPairs(s.idx)))
 
@@ -203,7 +286,8 @@ DoReset(s, e) ==
         tgt == TargetId(ln, e)
         snap == Flatten(s, Obj(s, tgt).tree)
         s1 == [s EXCEPT !.refs = Put(s.refs, hb, tgt),
-                        !.hlog = Append(s.hlog, LogRec(s.refs[hb], tgt, "reset", "moving%20to%20" \o e.arg))]
+                        !.hlog = Append(s.hlog, LogRec(s.refs[hb], tgt, "reset", "moving%20to%20" \o e.arg)),
+                        !.blog = BAppend(s.blog, hb, LogRec(s.refs[hb], tgt, "reset", "moving%20to%20" \o e.arg))]
         s2 == IF e.mode = "soft" THEN s1 ELSE [s1 EXCEPT !.idx = MkIdx(snap)]
         s3 == IF e.mode # "hard" THEN s2
               ELSE [s2 EXCEPT !.wt = [p \in (DOMAIN s.wt) \cup PathsOf(snap) |->
@@ -212,11 +296,12 @@ DoReset(s, e) ==
 
 DoBranch(s, nm) ==
     IF ~HeadHasCommit(s) \/ nm \in Branches(s) THEN Refuse(s)
-    ELSE R([s EXCEPT !.refs = Put(s.refs, nm, HeadId(s))], "ok")
+    ELSE R([s EXCEPT !.refs = Put(s.refs, nm, HeadId(s)),
+                     !.blog = Put(s.blog, nm, <<CreatedRec(HeadId(s), HeadBranch(s))>>)], "ok")
 
 DoBranchDelete(s, nm) ==
     IF nm \notin Branches(s) \/ nm = HeadBranch(s) THEN Refuse(s)
-    ELSE R([s EXCEPT !.refs = Drop(s.refs, {nm})], "ok")
+    ELSE R([s EXCEPT !.refs = Drop(s.refs, {nm}), !.blog = Drop(s.blog, {nm})], "ok")
 
 SetHead(s, nm) == [s EXCEPT !.head = [present |-> TRUE, ok |-> TRUE, branch |-> nm, raw |-> "ref:%20refs/heads/" \o nm]]
 
@@ -226,7 +311,10 @@ DoRename(s, nm) ==
         msg == "renamed%20refs/heads/" \o hb \o "%20to%20refs/heads/" \o nm
         s1 == SetHead([s EXCEPT !.refs = Put(Drop(s.refs, {hb}), nm, id)], nm)
     IN  IF ~HeadHasCommit(s) \/ nm \in Branches(s) THEN Refuse(s)
-        ELSE R([s1 EXCEPT !.hlog = s.hlog \o <<LogRec(id, id, "branch", msg), LogRec(id, id, "branch", msg)>>], "ok")
+        ELSE R([s1 EXCEPT !.hlog = s.hlog \o <<LogRec(id, id, "branch", msg), LogRec(id, id, "branch", msg)>>,
+                          !.blog = Put(Drop(s.blog, {hb}), nm,
+                                       <<CreatedRec(id, hb),
+                                         LogRec(id, id, "branch", "renamed%20refs/heads/" \o hb \o "%20refs/heads/" \o nm)>>)], "ok")
 
 DoSwitch(s, nm) ==
     LET s1 == SetHead(s, nm)
@@ -238,7 +326,8 @@ DoSwitchCreate(s, nm) ==
     LET id == HeadId(s)
         s1 == SetHead([s EXCEPT !.refs = Put(s.refs, nm, id)], nm)
     IN  IF ~HeadHasCommit(s) \/ nm \in Branches(s) THEN Refuse(s)
-        ELSE R([s1 EXCEPT !.hlog = Append(s.hlog, LogRec(id, id, "checkout", "moving%20from%20" \o HeadBranch(s) \o "%20to%20" \o nm))], "ok")
+        ELSE R([s1 EXCEPT !.hlog = Append(s.hlog, LogRec(id, id, "checkout", "moving%20from%20" \o HeadBranch(s) \o "%20to%20" \o nm)),
+                          !.blog = Put(s.blog, nm, <<CreatedRec(id, HeadBranch(s))>>)], "ok")
 
 DoUpdateRef(s, e) ==
     IF ~(e.exact /\ e.branch \in Branches(s) /\ IsCommit(s, e.id)) THEN Refuse(s)
@@ -408,6 +497,9 @@ InvLogImpl == HeadHasCommit(st) => \A k \in 0..(nk + 2) : LogImpl(st, k) = TakeN
 (* model expects, for the model-conformance report (never a verdict).                               *)
 Emit == PrintT(ToJson([k |-> "E", path |-> hist',
                        exp |-> [res |-> last'.res, idxp |-> IdxPaths(st'.idx), wt |-> st'.wt,
-                                br |-> Branches(st'), head |-> st'.head.branch, nlog |-> Len(st'.hlog)]]))
+                                br |-> Branches(st'), head |-> st'.head.branch, nlog |-> Len(st'.hlog),
+                                blog |-> [b \in DOMAIN st'.blog |-> [n |-> Len(st'.blog[b]), kind |-> st'.blog[b][Len(st'.blog[b])].kind]],
+                                status |-> StatusImpl(st'), blist |-> BranchListObs(st').names,
+                                logd |-> LogIds(LogObs(st', -1))]]))
 LevelBound(n) == Len(hist) < n      \* depth bound on the representative path (independent of the number of workers)
 =============================================================================
